@@ -47,6 +47,7 @@ type ChoicePt struct {
 }
 
 type Sched struct {
+	atomic int // > 0: scheduling points are suppressed (see FireNext)
 	threads      []*Thread
 	cur          *Thread
 	prefix       []int
@@ -352,6 +353,9 @@ func Point() {
 	}
 	if S.killed {
 		runtime.Goexit()
+	}
+	if S.atomic > 0 {
+		return // inside an atomic environment action (a timer firing): no scheduling point
 	}
 	S.yield(S.cur)
 }
